@@ -2,6 +2,7 @@
 //! C05 support: boundary-type descriptors (`ty`), the generic route drivers
 //! (`routes`), context-field structs (`ctx`) and the small-integer route (`r8`).
 //! The generic code here is instantiated in the table crates `c05t*` / `c05k*`.
+pub mod align;
 pub mod ctx;
 pub mod r8;
 pub mod routes;
